@@ -1136,6 +1136,20 @@ class Literal(Variable[T]):
                 name = type(original_data).__name__
         super().__init__(name, type_, _domain_source_=From(data))
 
+    def _evaluate__(self, sources: Optional[Dict[int, HashedValue]] = None, yield_when_false: bool = False) \
+            -> Iterable[Dict[int, HashedValue]]:
+        """
+        A constant in condition position (an operand of and / or / not, or the whole condition) is read as a boolean.
+        """
+        if not (self is self._conditions_root_ or isinstance(self._parent_, LogicalOperator)):
+            yield from super()._evaluate__(sources, yield_when_false=yield_when_false)
+            return
+        for value in super()._evaluate__(sources, yield_when_false=yield_when_false):
+            truth = bool(value[self._id_].value)
+            self._is_false_ = truth if self._invert_ else not truth
+            if not self._is_false_ or yield_when_false:
+                yield value
+
     @property
     def _plot_color_(self) -> ColorLegend:
         if self._plot_color__:
